@@ -23,6 +23,10 @@ var (
 	// ErrMissingAddrs indicates that no subnets were provided with addresses to select from. This
 	// is only valid for phantomHkdfMinVersion and newer.
 	ErrMissingAddrs = errors.New("no valid addresses specified to select")
+
+	// ErrNoWeight indicates that the weights of the subnet groups to choose from sum to zero, so
+	// no weighted choice can be made.
+	ErrNoWeight = errors.New("no subnets with positive weight to select from")
 )
 
 // getSubnetsHkdf returns EITHER all subnet strings as one composite array if
@@ -53,6 +57,11 @@ func getSubnetsHkdf(sc genericSubnetConfig, seed []byte, weighted bool) ([]*phan
 
 			totWeight += int64(weight)
 			choices = append(choices, cjSubnet)
+		}
+
+		// rand.Int panics when its bound is not positive
+		if totWeight <= 0 {
+			return nil, ErrNoWeight
 		}
 
 		// Sort choices ascending
